@@ -12,9 +12,34 @@ def gen_project(seed: int) -> T.Dict[str, str]:
     files: T.Dict[str, str] = {}
     nlibs = r.randint(3, 6)
     nexe = r.randint(2, 4)
-    L = ["project('det%d', 'c', version: '1.%d', meson_version: '>=1.1', default_options: ['warning_level=2', 'b_ndebug=if-release'])" % (seed, seed % 7),
-         "pkg = import('pkgconfig')", "fs = import('fs')", "py = find_program('python3')",
+    unity = r.choice(['off', 'off', 'on', 'subprojects'])
+    L = ["project('det%d', 'c', version: '1.%d', meson_version: '>=1.1', license: ['MIT', 'Apache-2.0', 'BSD-3-Clause'], license_files: ['LICENSE', 'COPYING', 'AUTHORS.txt'], "
+         "default_options: ['warning_level=2', 'b_ndebug=if-release', 'unity=%s', 'unity_size=2'])" % (seed, seed % 7, unity),
+         "pkg = import('pkgconfig')", "fs = import('fs')", "cmake = import('cmake')", "py = find_program('python3')",
+         # the dependency manifest (depmf.json) names every (sub)project with its version and licenses
+         "meson.install_dependency_manifest('share/det/depmf.json')",
          "cdata = configuration_data()"]
+    for n in ('LICENSE', 'COPYING', 'AUTHORS.txt'):
+        files[n] = n + '\n'
+    # a pkg-config dependency found through -Dpkg_config_path: two private directories provide different 'foo's (the cache of
+    # found dependencies is keyed by the search path and lives in coredata.dat), several -L directories of equal rank, a
+    # library present in more than one of them and one that cannot be resolved
+    L.append("foo = dependency('foo', required: false, method: 'pkg-config')")
+    L.append("if foo.found()\n  cdata.set_quoted('FOO_VERSION', foo.version())\n  cdata.set_quoted('FOO_VAR', foo.get_variable('flavour'))\n"
+             "  executable('usefoo', 'usefoo.c', dependencies: foo)\nendif")
+    files['usefoo.c'] = 'int main(void){return 0;}\n'
+    for which, ver in (('A', '1.0'), ('B', '2.1')):
+        dirs = ['lib1', 'lib2', 'lib3', 'lib4']
+        r.shuffle(dirs)
+        files[f'pc{which}/foo.pc'] = (f"prefix=${{pcfiledir}}/../sdk{which}\nflavour=from{which}\nName: foo\nDescription: foo {which}\nVersion: {ver}\n"
+                                      f"Cflags: -DFOO_FROM_{which} -I${{prefix}}/inc2 -I${{prefix}}/inc1\n"
+                                      f"Libs: {' '.join('-L${prefix}/' + d for d in dirs)} -lshadow -lonlyone -lnowhere\n")
+        for d in dirs:
+            files[f'sdk{which}/{d}/.keep'] = ''
+        for d in r.sample(dirs, 3):
+            files[f'sdk{which}/{d}/libshadow.so'] = ''
+        files[f'sdk{which}/{dirs[-1]}/libonlyone.so'] = ''
+        files[f'sdk{which}/inc1/.keep'] = files[f'sdk{which}/inc2/.keep'] = ''
     for i in range(r.randint(3, 7)):
         L.append(f"cdata.set('KEY{i}', {r.randint(0, 99)})")
         L.append(f"cdata.set_quoted('STR{i}', 'v{r.randint(0, 99)}')")
@@ -70,6 +95,27 @@ def gen_project(seed: int) -> T.Dict[str, str]:
         L.append(f"test('t{i}', {r.choice(exes)}, depends: [{', '.join(deps)}], env: e, suite: {r.sample(['a', 'b', 'c', 'd'], r.randint(1, 3))!r}, "
                  f"args: ['--x{i}'], is_parallel: {str(r.random() < 0.7).lower()})")
     L.append("benchmark('b0', %s, depends: [%s])" % (exes[0], ', '.join(libs[:3])))
+    # wrapped commands: capture/feed/env force a meson-private/meson_exe_*.dat pickle whose NAME is a digest of its content
+    L.append("ctc = custom_target('ctc', output: 'ctc.txt', input: 'tmpl.in', capture: true, feed: true, command: [py, files('cat.py')], "
+             "env: {'ZED': '1', 'ALPHA': '2', 'MID': '3', 'BETA': '4'}, depends: [%s], build_by_default: true)" % ', '.join(libs[:3]))
+    files['cat.py'] = "import sys\nsys.stdout.write(sys.stdin.read())\n"
+    L.append("ctw = custom_target('ctw', output: 'ctw.txt', capture: true, command: [%s, '--x'], env: e, build_by_default: true)" % exes[0])
+    L.append("run_target('rt', command: [py, files('cat.py')], depends: [%s], env: e)" % ', '.join(libs[:4]))
+    L.append("alias_target('al', %s, ct2, ctc)" % ', '.join(r.sample(libs, min(3, len(libs)))))
+    L.append("objlib = static_library('objl', objects: [%s.extract_all_objects(recursive: true), %s.extract_objects('%s.c')])" % (libs[0], libs[1], libs[1]))
+    L.append("vt = vcs_tag(input: 'tmpl.in', output: 'vcs.out', command: [py, '-c', 'print(1)'], fallback: 'fb')")
+    L.append("add_test_setup('ts', env: e, exe_wrapper: [py, '-u'], timeout_multiplier: 2, exclude_suites: ['c', 'a', 'b'])")
+    L.append("meson.add_install_script(py, files('cat.py'), 'a1', install_tag: 'scr')")
+    L.append("meson.add_install_script(%s, 'a2', skip_if_destdir: true)" % exes[0])
+    L.append("meson.add_postconf_script(py, '-c', 'pass')")
+    L.append("meson.add_dist_script(py, '-c', 'pass')")
+    L.append("install_symlink('lnk', pointing_to: 'tmpl.in', install_dir: get_option('datadir') / 'det')")
+    L.append("install_emptydir(get_option('localstatedir') / 'det', install_mode: 'rwxr-x---')")
+    L.append("install_man('det.1', 'det.3')")
+    files['det.1'] = files['det.3'] = '.TH det\n'
+    L.append("cmake.write_basic_package_version_file(name: 'det', version: '1.2.3', compatibility: 'SameMajorVersion')")
+    L.append("cmake.configure_package_config_file(name: 'det', input: 'detConfig.cmake.in', configuration: cdata)")
+    files['detConfig.cmake.in'] = '@PACKAGE_INIT@\nset(K0 @KEY0@)\nset(S0 @STR0@)\n'
     L.append("install_headers('include/common.h', subdir: 'det')")
     L.append("install_data('tmpl.in', install_dir: get_option('datadir') / 'det', install_tag: 'extra')")
     L.append("install_subdir('include', install_dir: get_option('includedir') / 'sub')")
@@ -87,11 +133,12 @@ def gen_project(seed: int) -> T.Dict[str, str]:
                           "open(dep, 'w').write(os.path.basename(out) + ': ' + ' '.join(os.path.join(src, n) for n in names) + '\\n')\n")
     for n in ['zeta.txt', 'alpha.txt', 'mid.txt', 'beta.txt', 'omega.txt', 'gamma.txt']:
         files[n] = n + '\n'
-    files['subprojects/spy/meson.build'] = ("project('spy', 'c', version: '0.2', default_options: ['warning_level=3', 'werror=true', 'c_std=c99', 'yopt=fromproject'])\n"
+    files['subprojects/spy/meson.build'] = ("project('spy', 'c', version: '0.2', license: ['Zlib', 'ISC'], license_files: ['LIC.a', 'LIC.b'], default_options: ['warning_level=3', 'werror=true', 'c_std=c99', 'yopt=fromproject'])\n"
                                             "static_library('spyl', 'spy.c', c_args: ['-DSPY_' + get_option('yopt')])\n")
     files['subprojects/spy/meson.options'] = "option('yopt', type: 'string', value: 'ydef')\n"
+    files['subprojects/spy/LIC.a'] = files['subprojects/spy/LIC.b'] = 'l\n'
     files['subprojects/spy/spy.c'] = 'int spy(void){return 2;}\n'
-    files['subprojects/spx/meson.build'] = ("project('spx', 'c', version: '0.1')\nlibsp = static_library('sp', 'sp.c')\n"
+    files['subprojects/spx/meson.build'] = ("project('spx', 'c', version: '0.1', license: 'GPL-2.0-or-later')\nlibsp = static_library('sp', 'sp.c')\n"
                                             "spx_dep = declare_dependency(link_with: libsp)\nmeson.override_dependency('spx', spx_dep)\n"
                                             "test('spt', executable('spe', 'spe.c', link_with: libsp))\n")
     files['subprojects/spx/meson.options'] = "option('sval', type: 'string', value: 'd')\n"
